@@ -11,10 +11,10 @@ Follows the source:
 * `algorithms.correlation.seed_corrcoef` → `seedCorrcoef`.
 * `utils.zscore`, `utils.percent_change` → `zscore1`, `percentChange1` (+ `…ND` along an axis).
 * `analysis.correlation.CorrelationAnalyzer.xcorr / xcorr_norm` → `xcorrFill` with the pair fill
-    in two variants: `.current` (entry (j,i) is a COPY of (i,j); zero lag taken at index N) and
-    `.intended` (entry (j,i) is the lag-REVERSED sequence; zero lag at index N-1); the two
-    choices are independent parameters of `xcorrNormFill` (the driver prints every combination and
-    the correspondence accepts any of them, so that repairing one recorded defect is not an alarm).
+    in two variants: `.current` (entry (j,i) is a COPY of (i,j) — recorded finding, pinned by the
+    repo's test) and `.intended` (entry (j,i) is the lag-REVERSED sequence); the driver prints both
+    and the correspondence accepts either.  `xcorr_norm` normalises at the zero-lag index N-1
+    (repaired upstream by 8b4ced3; the former index N is no longer accepted).
     `np.correlate(a, v, 'full')` = `convFull a (conj (reverse v))` (numpy's documented semantics).
 * `algorithms.entropy.*` → `entropyG` on exact joint counts (`List.count` on the zipped samples,
     cells = product of the per-variable symbol sets), `-p·log2 p` applied by the instance.
@@ -131,16 +131,15 @@ def seedCorrcoef (seed : List K) (targets : List (List K)) : List K :=
 /-- `np.corrcoef` entry (Pearson coefficient of two rows) — documented numpy semantics -/
 def corrcoef1 (a b : List K) : K := seedCorrcoef1 a b
 
-/-- `xcorr_norm`: each computed sequence is divided by its entry at `zeroIdx` and multiplied by
-the correlation coefficient; then the pair fill -/
-def xcorrNormFill (var zvar : Variant) (data : List (List K)) : List (List (List K)) :=
+/-- `xcorr_norm`: each computed sequence is divided by its zero-lag entry (index `N-1`) and
+multiplied by the correlation coefficient; then the pair fill -/
+def xcorrNormFill (var : Variant) (data : List (List K)) : List (List (List K)) :=
   let nch := data.length
   let N := (data.headD []).length
-  let z := match zvar with | .current => N | .intended => N - 1
   let up (i j : Nat) : List K :=
     let c := correlateFull (data.getD i []) (data.getD j [])
     let r := corrcoef1 (data.getD i []) (data.getD j [])
-    c.map fun v => mul (div v (nth c z)) r
+    c.map fun v => mul (div v (nth c (N - 1))) r
   (List.range nch).map fun i => (List.range nch).map fun j =>
     if i ≤ j then up i j
     else match var with
@@ -318,8 +317,7 @@ def handle (args : List String) : String :=
     | some n, some d =>
       let rs := rows n d
       if which = "norm" then
-        let f := fun v z => showCube (xcorrNormFill v z rs)
-        s!"ok {f .intended .intended} ; {f .current .current} ; {f .current .intended} ; {f .intended .current}"
+        s!"ok {showCube (xcorrNormFill .intended rs)} ; {showCube (xcorrNormFill .current rs)}"
       else s!"ok {showCube (xcorrFill .intended rs)} ; {showCube (xcorrFill .current rs)}"
     | _, _ => "bad-op"
   | ["corrspec", nm, x1, x2] =>
